@@ -180,10 +180,24 @@ class Gen:
             return self.susp(ind)
         if r < 0.95:
             return self.exit_stmt(ind, in_loop)
+        if r < 0.975:
+            # calls that look like the compiler's exit call (three None arguments) but are not
+            return ind + self.rng.choice(["probe(None, None, None)", "o.m(None, None, None)", "v(None, None)",
+                                          "probe(None, None, None, None)", "x = probe(None, None, None)"]) + "\n"
         return ind + "probe(%d)\n" % self.fresh()
 
 
+LOOKALIKES = [
+    "def f(m, c, v, it, ait, trap, probe, o, d, i, E):\n    with m(1):\n        probe(None, None, None)\n    return 1\n",
+    "def f(m, c, v, it, ait, trap, probe, o, d, i, E):\n    with m(1) as x, m(2):\n        o.m(None, None, None)\n        yield 1\n        probe(None, None, None)\n",
+    "async def f(m, c, v, it, ait, trap, probe, o, d, i, E):\n    async with m(1):\n        with m(2):\n            probe(None, None, None)\n            await trap(3)\n            await o.m(None, None, None)\n",
+    "def f(m, c, v, it, ait, trap, probe, o, d, i, E):\n    probe(None, None, None)\n    for i in it(1):\n        with m(2):\n            x = probe(None, None, None)\n            if c(3): return x\n",
+]
+
+
 def gen_program(seed: int, size: int):
+    if seed < 0:
+        return LOOKALIKES[(-seed - 1) % len(LOOKALIKES)]
     rng = random.Random(seed)
     flavour = rng.choice(["sync", "gen", "coro", "agen"])
     g = Gen(rng, flavour, size)
@@ -235,6 +249,8 @@ def make_descs(tier, seed, which, alt=False):
         rel, path = idx[i]
         descs.append({"src": "stdlib", "file": rel, "path": path})
     ngen = (25 if alt else 80) if tier == "quick" else (600 if alt else 1500)
+    for k in range(len(LOOKALIKES)):
+        descs.append({"src": "gen", "seed": -(k + 1), "size": 0})
     for k in range(ngen):
         descs.append({"src": "gen", "seed": seed * 1000003 + k, "size": 4 + (k % 9)})
     if not alt:
